@@ -5,6 +5,7 @@ UNITS = {
     "authz": dict(engine="verus", serves=["C02", "C11", "C13", "C01", "C04"]),
     "handler": dict(engine="verus", serves=["C01", "C03", "C05", "C10", "C11", "C14", "C15"]),
     "disk": dict(engine="verus", serves=["C19"]),
+    "listing": dict(engine="verus", serves=["C19", "C13"]),
     "provision": dict(engine="verus", serves=["C16"]),
     "telemetry": dict(engine="verus", serves=["C18"]),
     "setup": dict(engine="verus", serves=["C17"]),
@@ -95,18 +96,23 @@ PROPERTIES["C01"] = dict(
 )
 
 PROPERTIES["C19"] = dict(
-    units=["disk"],
+    units=["disk", "listing"],
     technique="Verus contracts on the extracted real functions over a ghost directory model (E4 Tracked<&mut Dir> threaded through stubs of remove_file/rename/open/write/listing); whole-directory postconditions and inductive invariants",
     level_text="Deductive proof (Verus/Z3), all histories and any start state: write_all and RollingLogger::archive_file (verbatim, incl. their "
                "deletion loops and usize/u16 overflow obligations) are proved to leave at most max-1 files of their class for ANY number found, "
                "removing a prefix of the sorted listing (oldest first), so that after the one file written / re-opened the count is <= max; "
                "roll_if_needed/write_line/write_many/write preserve the count invariant and keep every log file <= limit + one write; the "
-               "file-count guard of event_logger::start (E5 slice) writes only when listed files < cap; configured counts >= 1 proved at every call site.",
+               "file-count guard of event_logger::start (E5 slice) writes only when listed files < cap; configured counts >= 1 proved at every call site. "
+               "Unit listing: the real body of RollingLogger::get_log_files (read_dir loop, metadata, name test, sort) is proved, against a ghost "
+               "model of what read_dir yields, to list every regular file whose name starts with the configured log file name, only selected "
+               "entries, each once, sorted.",
     level_note="Trusted: Verus/Z3/rustc; the directory model (listing stubs return exactly the class, sorted; POSIX remove/rename/metadata; "
                "open_file creates the current file empty; json_write_to_file adds <= 1 file; LineWriter bytes accounted when handed over); "
                "name order = age order for archive/dump names; Vec length < usize::MAX. Bounds hold along histories where remove_file and the "
                "deciding listing do not fail (after a failure the next roll/write_all restores them from any state, proved). Not covered: "
-               "several threads using one RollingLogger, other processes writing the directories, get_log_files'/get_files' own read_dir loops.",
+               "several threads using one RollingLogger, other processes writing the directories, the read_dir loops of misc_helpers::get_files / "
+               "search_files (stubs). The two directory models are not linked by a lemma: unit disk assumes its get_log_files stub lists its "
+               "class `Dir.files`; unit listing proves what the real body lists over `DirModel.entries` (std::fs read_dir/metadata/sort contracts assumed).",
     design_ref="DESIGN.md section 3 C19",
     assumptions=[],
 )
@@ -199,7 +205,7 @@ PROPERTIES["C15"] = dict(
 )
 
 PROPERTIES["C13"] = dict(
-    units=["panics", "panic_bytes", "handler", "provision", "telemetry", "disk", "sign", "keykeeper", "authz", "authorizer", "conn", "actors", "keystore", "redirect"],
+    units=["panics", "panic_bytes", "handler", "provision", "telemetry", "disk", "sign", "keykeeper", "authz", "authorizer", "conn", "actors", "keystore", "redirect", "listing"],
     technique="Verus' own safety obligations (str/String slicing on a char boundary, String::truncate, index, arithmetic overflow, unwrap/stub preconditions) on every function under contract; Kani for the byte-level UTF-16 slice",
     level_text='For the functions under contract (listed in the evidence; not the whole program): Verus discharges for all inputs that no slice/truncate is off a char boundary (event_logger::write_event, AgentStatusSharedState::get_module_status, ProxyServer::log_connection_summary after the fixes), no arithmetic overflow, no out-of-range index and no failing stub precondition in the request handler, provisioning, telemetry and logging units; Kani checks the UTF-16 frame conversion of read_response_body for every frame of up to 5 bytes (bounded companion, not counted as proved).',
     level_note="Partial claim: only the functions under contract; panics inside dependencies, the accept loop, main and Windows code are not covered. UTF-8 byte model of String (utf8_len/char_boundary, linked to vstd's by trusted axioms). 'Display does not panic' axioms per displayed type. Known C13-labelled preconditions in other units (headers_to_canonicalized_string value is visible ASCII; key keeper sleep arithmetic) are reported by those units.",
